@@ -359,7 +359,7 @@ def legacy_expected(h, it_is_nin):
     inp.append(I(("ap", "new:CScript"), "CScript") if other else ("op", "call:SerializeScriptCode"))
     inp.append(I(C(0), "int") if (other and (single or none)) else I(F(IDX(F(tx, "vin"), x), "nSequence"), "unsigned int"))
     items = [I(F(tx, "nVersion"), "int"), ("op", "WriteCompactSize", NI, ("s", "unsigned int")), ("loop", ("ap", "while", ("ap", "<", it, NI)), inp)]
-    NO = C(0) if none else (("ap", "+", nIn, C(1)) if single else SIZE(F(tx, "vout")))
+    NO = C(0) if none else (symx.lin_add(nIn, C(1)) if single else SIZE(F(tx, "vout")))
     items.append(("op", "WriteCompactSize", NO, ("s", "unsigned int")))
     if not none:
         y = nIn if it_is_nin else it
